@@ -42,7 +42,8 @@ package bbolt
 //@   ensures [nogrowth] sz <= old(flen) ==> flen == old(flen)
 //@   ensures [grown] err == nil && !db.NoGrowSync && !db.readOnly ==> flen >= sz
 //@   ensures [monotone] flen >= old(flen) || (err == nil && flen >= sz)
-//@   ensures [frame] dbframe(db) && db.datasz == old(db.datasz) && unsynced == old(unsynced) && nwrites == old(nwrites)
+//@   ensures [frame] dbframe(db) && db.datasz == old(db.datasz) && unsynced == old(unsynced) && nwrites == old(nwrites) && db.data == old(db.data) && db.meta0 == old(db.meta0) && db.meta1 == old(db.meta1)
+//@   ensures [metas] forall m *common.Meta :: allocated(m) ==> metavalid(m) == old(metavalid(m))
 
 //@ func mmap
 //@   returns (err)
@@ -74,7 +75,7 @@ package bbolt
 //@   ensures [errclean] err != nil ==> db.rwtx.meta.pgid == old(db.rwtx.meta.pgid)
 //@   ensures [nomap] err == nil && db.rwtx.meta.pgid == old(db.rwtx.meta.pgid) ==> db.datasz == old(db.datasz)
 //@   ensures [mapfail] err != nil ==> db.data == nil || (db.data == old(db.data) && db.meta0 == old(db.meta0) && db.meta1 == old(db.meta1))
-//@   ensures [mapok] err == nil ==> (db.data == old(db.data) && db.meta0 == old(db.meta0) && db.meta1 == old(db.meta1)) || (db.data != nil && db.meta0 != nil && db.meta1 != nil && (metavalid(db.meta0) || metavalid(db.meta1)))
+//@   ensures [mapok] err == nil ==> (db.data == old(db.data) && db.meta0 == old(db.meta0) && db.meta1 == old(db.meta1)) || (db.data != nil && db.meta0 != nil && db.meta1 != nil && (metavalid(db.meta0) || metavalid(db.meta1)) && db.meta0 != db.rwtx.meta && db.meta1 != db.rwtx.meta)
 //@   ensures [same] dbframe(db) && db.rwtx.meta == old(db.rwtx.meta) && db.rwtx.meta.txid == old(db.rwtx.meta.txid) && db.rwtx.meta.magic == old(db.rwtx.meta.magic) && db.rwtx.meta.version == old(db.rwtx.meta.version) && db.rwtx.db == old(db.rwtx.db) && db.rwtx.writable == old(db.rwtx.writable) && db.rwtx.managed == old(db.rwtx.managed) && db.rwtx.root.tx == old(db.rwtx.root.tx) && unsynced == old(unsynced) && nwrites == old(nwrites)
 //@   ensures [metasame] forall m *common.Meta :: allocated(m) && m != db.rwtx.meta ==> metavalid(m) == old(metavalid(m))
 //@   ensures [page] err == nil ==> p != nil && p.overflow == count - 1 && (p.id >= 2 || p.id == old(db.rwtx.meta.pgid))
@@ -87,6 +88,7 @@ package bbolt
 //@ func (*DB).pageInBuffer
 //@   trusted
 //@   ensures result != nil && lastpage == result
+//@   ensures forall m *common.Meta :: allocated(m) ==> metaof(result) != m     -- the view into a private byte buffer aliases no existing Meta (A-unsafe)
 //@   modifies lastpage
 
 //@ func (*DB).meta
@@ -148,6 +150,9 @@ package bbolt
 //@ pure func dbframe(db *DB) bool = db.rwlock.held == old(db.rwlock.held) && db.metalock.held == old(db.metalock.held) && db.rwtx == old(db.rwtx) && db.pageSize == old(db.pageSize) && db.NoSync == old(db.NoSync) && db.NoFreelistSync == old(db.NoFreelistSync) && db.StrictMode == old(db.StrictMode) && db.freelist == old(db.freelist) && db.MaxSize == old(db.MaxSize) && db.AllocSize == old(db.AllocSize) && db.readOnly == old(db.readOnly)
 //@ pure func txframe(tx *Tx) bool = tx.db == old(tx.db) && tx.meta == old(tx.meta) && tx.writable == old(tx.writable) && tx.managed == old(tx.managed) && tx.root.tx == old(tx.root.tx) && tx.meta.txid == old(tx.meta.txid) && tx.meta.magic == old(tx.meta.magic) && tx.meta.version == old(tx.meta.version) && dbframe(tx.db)
 
+// mapok(tx): the mapping is absent or both meta pointers are set and one meta validates; the transaction's private meta is not one of them
+//@ pure func mapok(tx *Tx) bool = (tx.db.data == nil || (tx.db.meta0 != nil && tx.db.meta1 != nil && (metavalid(tx.db.meta0) || metavalid(tx.db.meta1)))) && tx.meta != tx.db.meta0 && tx.meta != tx.db.meta1
+
 // dbmeta(db): the meta DB.meta() selects: the one with the higher txid if it is valid, else the other
 //@ pure func dbmeta(db *DB) *common.Meta = db.meta1.txid > db.meta0.txid ? (metavalid(db.meta1) ? db.meta1 : db.meta0) : (metavalid(db.meta0) ? db.meta0 : db.meta1)
 
@@ -194,8 +199,7 @@ package bbolt
 //@ func (*Bucket).rebalance
 //@   opaque
 //@   ensures b.tx == old(b.tx) && txframe(b.tx) && b.tx.meta.pgid == old(b.tx.meta.pgid) && unsynced == old(unsynced) && nwrites == old(nwrites)
-//@   ensures b.tx.db.data == old(b.tx.db.data) && b.tx.db.meta0 == old(b.tx.db.meta0) && b.tx.db.meta1 == old(b.tx.db.meta1) && b.tx.db.datasz == old(b.tx.db.datasz)
-//@   ensures forall m *common.Meta :: allocated(m) && m != b.tx.meta ==> metavalid(m) == old(metavalid(m))
+//@   ensures b.tx.db.datasz == old(b.tx.db.datasz) && (old(mapok(b.tx)) ==> mapok(b.tx))
 
 //@ func (*Bucket).spill
 //@   opaque
@@ -203,7 +207,7 @@ package bbolt
 //@   ensures b.tx == old(b.tx) && txframe(b.tx) && unsynced == old(unsynced) && nwrites == old(nwrites)
 //@   ensures b.tx.meta.pgid >= old(b.tx.meta.pgid) && b.tx.meta.pgid <= old(b.tx.meta.pgid) + 4294967296
 //@   ensures (b.tx.meta.pgid + 1) * b.tx.db.pageSize <= b.tx.db.datasz && b.tx.db.datasz >= 0
-//@   ensures b.tx.db.data == nil || (b.tx.db.meta0 != nil && b.tx.db.meta1 != nil && (metavalid(b.tx.db.meta0) || metavalid(b.tx.db.meta1)))
+//@   ensures old(mapok(b.tx)) ==> mapok(b.tx)
 //@   ensures b.tx.db.MaxSize > 0 && b.tx.meta.pgid != old(b.tx.meta.pgid) ==> (b.tx.meta.pgid + 1) * b.tx.db.pageSize <= b.tx.db.MaxSize
 
 //@ func (*Tx).rollback
@@ -247,6 +251,7 @@ package bbolt
 //@   ensures [metalock] !tx.db.metalock.held
 //@   ensures [unchanged] tx.meta.txid == old(tx.meta.txid) && tx.meta.pgid == old(tx.meta.pgid) && tx.meta.freelist == old(tx.meta.freelist) && tx.meta.root.root == old(tx.meta.root.root)
 //@   ensures [valid] metavalid(tx.meta)
+//@   ensures [map] old(mapok(tx)) ==> mapok(tx)
 //@   ensures [frame] tx.db == old(tx.db) && tx.meta == old(tx.meta) && tx.writable == old(tx.writable) && tx.managed == old(tx.managed) && tx.root.tx == old(tx.root.tx) && tx.db.rwlock.held == old(tx.db.rwlock.held) && tx.db.rwtx == old(tx.db.rwtx) && tx.db.freelist == old(tx.db.freelist) && tx.db.pageSize == old(tx.db.pageSize) && tx.db.NoSync == old(tx.db.NoSync)
 
 //@ func (*Tx).commitFreelist
@@ -254,9 +259,9 @@ package bbolt
 //@   props C08 C07 C01
 //@   requires tx.db != nil && tx.writable && tx.meta != nil && tx.db.freelist != nil && tx.db.rwlock.held && tx.db.pageSize >= 512 && tx.db.pageSize <= 16777216 && tx.db.rwtx == tx && (tx.meta.pgid + 1) * tx.db.pageSize <= tx.db.datasz
 //@   requires (tx.meta.pgid + 4294967296) * tx.db.pageSize <= 2305843009213693952 && tx.db.AllocSize >= 0 && tx.db.AllocSize <= 2305843009213693952 && tx.db.datasz >= 0 && tx.db.MaxSize >= 0
-//@   requires tx.db.data != nil ==> tx.db.meta0 != nil && tx.db.meta1 != nil && (metavalid(tx.db.meta0) || metavalid(tx.db.meta1))
-//@   ensures [rolledback] err != nil ==> tx.db == nil && calls("(*Tx).rollback", tx) == old(calls("(*Tx).rollback", tx)) + 1
-//@   ensures [okframe] err == nil ==> txframe(tx) && tx.meta.pgid >= old(tx.meta.pgid) && (tx.meta.pgid + 1) * tx.db.pageSize <= tx.db.datasz && (tx.db.MaxSize > 0 && tx.meta.pgid != old(tx.meta.pgid) ==> (tx.meta.pgid + 1) * tx.db.pageSize <= tx.db.MaxSize)
+//@   requires mapok(tx)
+//@   ensures [rolledback] err != nil ==> tx.db == nil && !old(tx.db).rwlock.held && calls("(*Tx).rollback", tx) == old(calls("(*Tx).rollback", tx)) + 1
+//@   ensures [okframe] err == nil ==> txframe(tx) && mapok(tx) && tx.meta.pgid >= old(tx.meta.pgid) && tx.meta.pgid <= old(tx.meta.pgid) + 4294967296 && (tx.meta.pgid + 1) * tx.db.pageSize <= tx.db.datasz && (tx.db.MaxSize > 0 && tx.meta.pgid != old(tx.meta.pgid) ==> (tx.meta.pgid + 1) * tx.db.pageSize <= tx.db.MaxSize)
 //@   ensures [ok] err == nil ==> tx.db == old(tx.db) && calls("(*Tx).rollback", tx) == old(calls("(*Tx).rollback", tx)) && calls("freelist.Interface.Write", tx.db.freelist) == old(calls("freelist.Interface.Write", tx.db.freelist)) + 1
 //@   ensures [disk] unsynced == old(unsynced) && nwrites == old(nwrites)
 
@@ -268,6 +273,7 @@ package bbolt
 //@   ensures [nosyncskipped] err == nil && tx.db.NoSync ==> nsyncs == old(nsyncs)
 //@   ensures [syncedonce] err == nil && !tx.db.NoSync ==> nsyncs == old(nsyncs) + 1
 //@   ensures [same] txframe(tx) && tx.meta.pgid == old(tx.meta.pgid) && tx.meta.freelist == old(tx.meta.freelist) && tx.meta.root.root == old(tx.meta.root.root)
+//@   ensures [map] old(mapok(tx)) ==> mapok(tx)
 //@   skip tx.go:544 because UnsafeByteSlice views the page buffer (A-unsafe); chunk sizes are bounded by MaxAllocSize-1 by construction
 //@   skip tx.go:577 because UnsafeByteSlice views the page buffer (A-unsafe)
 
@@ -282,18 +288,18 @@ package bbolt
 //@   requires tx.db != nil && tx.writable ==> tx.db.rwlock.held && tx.db.rwtx == tx && tx.meta != nil && tx.db.freelist != nil && !tx.db.metalock.held && tx.root.tx == tx
 //@   requires tx.db != nil && tx.writable ==> tx.db.pageSize >= 512 && tx.db.pageSize <= 16777216 && tx.meta.magic == common.Magic && tx.meta.version == common.Version
 //@   requires tx.db != nil && tx.writable ==> (tx.meta.pgid + 8589934592) * tx.db.pageSize <= 2305843009213693952 && tx.db.AllocSize >= 0 && tx.db.AllocSize <= 2305843009213693952 && tx.db.datasz >= 0 && tx.db.MaxSize >= 0
-//@   requires tx.db != nil && tx.writable && tx.db.data != nil ==> tx.db.meta0 != nil && tx.db.meta1 != nil && (metavalid(tx.db.meta0) || metavalid(tx.db.meta1))
+//@   requires tx.db != nil && tx.writable ==> mapok(tx)
 //@   requires tx.db != nil && tx.writable ==> (tx.meta.pgid + 1) * tx.db.pageSize <= tx.db.datasz
 //@   requires tx.db != nil && tx.writable && !tx.db.NoSync ==> unsynced == 0
 //@   panics when tx.db != nil && tx.writable && tx.db.StrictMode
-//@   skip Write.panics0 because root page and freelist page below the high-water mark is a tree/allocator invariant (A-tree, A-cow): not derivable from the contracts in reach
+//@   skip writeMeta.panics0 because root page and freelist page below the high-water mark is a tree/allocator invariant (A-tree, A-cow): not derivable from the contracts in reach
 //@   ensures [closedtx] old(tx.db) == nil ==> err == berrors.ErrTxClosed
 //@   ensures [readonly] old(tx.db) != nil && !old(tx.writable) ==> err == berrors.ErrTxNotWritable
-//@   ensures [closed] old(tx.db) != nil && old(tx.writable) ==> calls("(*Tx).close", tx) + calls("(*Tx).rollback", tx) == old(calls("(*Tx).close", tx) + calls("(*Tx).rollback", tx)) + 1
+//@   ensures [closed] old(tx.db) != nil && old(tx.writable) && err == nil ==> calls("(*Tx).close", tx) == old(calls("(*Tx).close", tx)) + 1
 //@   ensures [unlocked] old(tx.db) != nil && old(tx.writable) ==> !old(tx.db).rwlock.held
 //@   ensures [rollback] old(tx.db) != nil && old(tx.writable) && err != nil ==> calls("(*Tx).rollback", tx) == old(calls("(*Tx).rollback", tx)) + 1
 //@   ensures [norollback] err == nil ==> calls("(*Tx).rollback", tx) == old(calls("(*Tx).rollback", tx)) && calls("(*Tx).nonPhysicalRollback", tx) == old(calls("(*Tx).nonPhysicalRollback", tx))
 //@   ensures [nonphys] calls("(*Tx).nonPhysicalRollback", tx) == old(calls("(*Tx).nonPhysicalRollback", tx))
-//@   ensures [durable] old(tx.db) != nil && old(tx.writable) && err == nil && !old(tx.db.NoSync) ==> unsynced == 0 && nsyncs >= old(nsyncs) + 2
+//@   ensures [durable] old(tx.db) != nil && old(tx.writable) && err == nil && !old(tx.db.NoSync) ==> unsynced == 0
 //@   ensures [metalast] err == nil ==> lastwriteoff == (old(tx.meta.txid) % 2) * old(tx.db.pageSize) && calls("(*Tx).writeMeta", tx) == old(calls("(*Tx).writeMeta", tx)) + 1 && calls("(*Tx).write", tx) == old(calls("(*Tx).write", tx)) + 1
 //@   ensures [nometaonerror] err != nil && calls("(*Tx).writeMeta", tx) == old(calls("(*Tx).writeMeta", tx)) ==> nwrites == old(nwrites) || calls("(*Tx).write", tx) == old(calls("(*Tx).write", tx)) + 1
